@@ -387,6 +387,14 @@ class Installed:
             C._CACHED_SIZE_TRIGGER = self.size_trigger
         self.cache_saved = dict(C.parser_cache)
         C.parser_cache.clear()
+        # any other module-level container of parso.cache (none today; a change may add one) starts as at import
+        for name, (obj, snap) in _IMPORT_STATE.items():
+            _restore(obj, snap)
+        for name, val in list(C.__dict__.items()):
+            if name not in _IMPORT_STATE and name != 'parser_cache' and isinstance(val, (dict, set, list)) \
+                    and not name.startswith('__'):
+                _IMPORT_STATE[name] = (val, type(val)())     # created after import: assume empty at start
+                _restore(val, type(val)())
         return self
 
     def __exit__(self, *a):
@@ -402,6 +410,19 @@ class Installed:
 
 _MISSING = object()
 FILES = ['a.py', 'b.py']
+
+
+def _restore(obj, snap):
+    if isinstance(obj, list):
+        obj[:] = snap
+    else:
+        obj.clear()
+        obj.update(snap)
+
+
+import copy as _copy
+_IMPORT_STATE = {n: (v, _copy.copy(v)) for n, v in C.__dict__.items()
+                 if isinstance(v, (dict, set, list)) and not n.startswith('__') and n != 'parser_cache'}
 
 
 def do_parse(w, f, g, d, mode):
@@ -536,7 +557,7 @@ def history_inflight_known(o1, o2, o3, fl1, fl2, t1, t2):
 # one step from an arbitrary valid state (inductive invariant)
 def _item(gid, name, version, change_ms, used_ms):
     text = 'src %s v%d\n' % (name, version)
-    it = C._NodeCacheItem(Tree(gid, text), [text], Ms(change_ms))
+    it = C._NodeCacheItem(Tree(gid, text), [text, ''], Ms(change_ms))   # = split_lines(text, keepends=True)
     it.last_used = Ms(used_ms)
     return it
 
@@ -768,6 +789,35 @@ def op_fault(prim: int, kind: int, mode: int, has_pkl: bool, pkl_cur: bool, lock
             return _no('entry not repaired by a later successful save')
         C.parser_cache.clear()
         if not _parse_quiet(w, 0, 0, 0, mode):
+            return False
+    return True
+
+
+def dir_vanishes(s1: int, s2: int, mode: int) -> bool:
+    """
+    require: 0 <= s1 <= 1 and 0 <= s2 <= 1 and 0 <= mode <= 1
+    """
+    # cached parse; the cache directory is removed from outside (other process / clean-up tool); optional write;
+    # the next parse must succeed AND its save must re-create the entry (a later save repairs)
+    w = World()
+    w.write_src(FILES[0])
+    with Installed(w):
+        if not _parse_quiet(w, 0, 0, 0, mode):
+            return False
+        _step(w, 3, 0, 0, 0, 0, 0)
+        if s1:
+            w.write_src(FILES[0])
+        if s2:
+            C.parser_cache.clear()
+        if not s1 and not s2:
+            w.touch_src(FILES[0])
+        if not _parse_quiet(w, 0, 0, 0, mode):
+            return False
+        ent = w.files.get(_pkl_path(0, 0, FILES[0]))
+        saved = s1 or s2 or mode == 0      # (touch only + diff_cache: unchanged lines, nothing is saved)
+        if saved and (ent is None or ent.torn is not None):
+            return _no('after the cache directory vanished the next successful save did not re-create the entry')
+        if not invariant(w):
             return False
     return True
 
